@@ -382,4 +382,77 @@ theorem offs_bytes (el : Nat) (l : List Loop) :
   simp only [offs, Int.one_mul]
   rfl
 
+/-! ### accelerator customisation -/
+
+theorem spatialStep_emits (bc : Bool) (st st' : St) (d : Nat) (s : Int)
+    (h : spatialStep bc st d = .ok (s, st')) : ∃ b, st.cur = some (b, s) := by
+  unfold spatialStep at h
+  match hc : st.cur, h with
+  | some (b, s0), h =>
+    simp only [] at h
+    refine ⟨b, ?_⟩
+    split at h
+    · simp only [Except.ok.injEq, Prod.mk.injEq] at h; rw [h.1]
+    · split at h
+      · split at h
+        · exact absurd h (by simp)
+        · split at h
+          · exact absurd h (by simp)
+          · match hr : st.rest, h with
+            | (nb, ns) :: r, h =>
+              simp only [] at h
+              split at h
+              · split at h
+                · simp only [Except.ok.injEq, Prod.mk.injEq] at h; rw [h.1]
+                · exact absurd h (by simp)
+              · simp only [Except.ok.injEq, Prod.mk.injEq] at h; rw [h.1]
+      · exact absurd h (by simp)
+
+theorem spatialStep_spec_flags (bc : Bool) (st st' : St) (d : Nat) (s : Int)
+    (h : spatialStep bc st d = .ok (s, st')) (hb : st'.bcast = false) : st.bcast = false := by
+  unfold spatialStep at h
+  match hc : st.cur, h with
+  | some (b, s0), h =>
+    simp only [] at h
+    split at h
+    · simp only [Except.ok.injEq, Prod.mk.injEq] at h; rw [← h.2] at hb; exact hb
+    · split at h
+      · split at h
+        · exact absurd h (by simp)
+        · split at h
+          · exact absurd h (by simp)
+          · match hr : st.rest, h with
+            | (nb, ns) :: r, h =>
+              simp only [] at h
+              split at h
+              · split at h
+                · simp only [Except.ok.injEq, Prod.mk.injEq] at h; rw [← h.2] at hb; simp at hb
+                · exact absurd h (by simp)
+              · simp only [Except.ok.injEq, Prod.mk.injEq] at h; rw [← h.2] at hb; exact hb
+      · exact absurd h (by simp)
+
+/-- an outer loop `(2, c)` in front of the temporal loops doubles every step: the step itself, then the step at `+c` -/
+theorem hwStream_cons2 (dims : List Nat) (p : Pattern) (c : Int) :
+    hwStream dims { ub := 2 :: p.ub, ts := c :: p.ts, ss := p.ss } =
+      (hwStream dims p).flatMap fun st => [st, st.map (· + c)] := by
+  unfold hwStream
+  simp only []
+  generalize offs ((bank, 1) :: spatialLoops dims p.ss) = inner
+  have hl : Pattern.loops { ub := 2 :: p.ub, ts := c :: p.ts, ss := p.ss } = (2, c) :: p.loops := rfl
+  rw [hl]
+  have ho : offs ((2, c) :: p.loops) = (offs p.loops).flatMap fun o => [o, o + c] := by
+    simp only [offs]
+    apply congrArg (fun f => List.flatMap f (offs p.loops))
+    funext o
+    simp [List.range_succ]
+  rw [ho, List.map_flatMap, List.flatMap_map]
+  apply congrArg (fun f => List.flatMap f (offs p.loops))
+  funext o
+  simp only [List.map_cons, List.map_nil, List.map_map]
+  congr 2
+  apply List.map_congr_left
+  intro x _
+  simp only [Function.comp]
+  omega
+
 end SnaxVerif.Stream
